@@ -5,8 +5,11 @@
   Helper definitions used in the statements (all in `BklProofs/Lemmas/Files.lean`):
   `PlainDir fs d` (an existing directory reached without symlinks), `LayerFile fs d layer e c`
   (layer `layer` is provided by exactly the file `layer.e` of `d`, with content `c`),
-  `globName fs path n` (the files one `$parent` name stands for), `cliMerge` / `cliStep`
-  (the input loop of cmd/bkl), `aloneDocs` (what `-P` merges).
+  `globName fs cfg path n` (the files one `$parent` name stands for: the rooted glob
+  `fs.globFiles cfg.root …`), `fs.findRooted root dir layer` (the rooted `findFile` of
+  `fileParents`: the first supported extension `e` with
+  `fs.rootExists root (relTo root (dir ++ [layer.e]))`), `fromName fs cfg p` (the filename rule),
+  `cliMerge` / `cliStep` (the input loop of cmd/bkl), `aloneDocs` (what `-P` merges).
 -/
 import BklProofs.Lemmas.Files
 import BklProofs.Lemmas.FilesRename
@@ -19,18 +22,19 @@ namespace Bkl
     name split on ".": fewer than two parts is an error, two parts (`a.yaml`) mean no parent,
     otherwise the parent is the file found for the layer "base name minus its last two parts";
     a layer that no file provides is an error (never silently skipped). -/
-theorem C03_filename_parent (fs : FS) (p : Comps) (docs : List Val)
+theorem C03_filename_parent (fs : FS) (cfg : RootCfg) (p : Comps) (docs : List Val)
     (hdocs : ∀ d ∈ docs, parentDirective d = .ok .absent)
     (hlink : fs.evalSymlinks p = some p) :
     let parts := (baseOf p).splitOn "."
     let layer := ".".intercalate (parts.take (parts.length - 2))
-    (parts.length < 2 → fileParents fs p docs = .error .invalidFilename) ∧
-    (parts.length = 2 → fileParents fs p docs = .ok []) ∧
+    (parts.length < 2 → fileParents fs cfg p docs = .error .invalidFilename) ∧
+    (parts.length = 2 → fileParents fs cfg p docs = .ok []) ∧
     (3 ≤ parts.length →
-      (∀ f, fs.findFile (dirOf p) layer = some f → fileParents fs p docs = .ok [f]) ∧
-      (fs.findFile (dirOf p) layer = none → fileParents fs p docs = .error .missingFile)) := by
+      (∀ f, fs.findRooted cfg.root (dirOf p) layer = some f → fileParents fs cfg p docs = .ok [f]) ∧
+      (fs.findRooted cfg.root (dirOf p) layer = none →
+        fileParents fs cfg p docs = .error .missingFile)) := by
   intro parts layer
-  rw [fileParents_no_directive fs p docs hdocs, hlink]
+  rw [fileParents_no_directive fs cfg p docs hdocs, hlink]
   simp only [fromName]
   refine ⟨?_, ?_, ?_⟩
   · intro h
@@ -62,14 +66,17 @@ example : (∀ d ∈ [Val.map [("y", .int 2)]], parentDirective d = .ok .absent)
   have : d = Val.map [("y", .int 2)] := by simpa using hd
   subst this; rfl
 
-/-- What a candidate returned by `findFile` is: `layer.e` for a supported `e`, existing. -/
-theorem C03_findFile_spec (fs : FS) (dir : Comps) (layer : String) (f : Comps)
-    (h : fs.findFile dir layer = some f) :
-    ∃ e, e ∈ supportedExts ∧ f = dir ++ [layer ++ "." ++ e] ∧ fs.exists f = true :=
-  findFile_some fs dir layer f h
+/-- What a candidate returned by the rooted `findFile` (`FS.findRooted`, the probe `fileParents`
+    uses) is: `layer.e` for a supported `e` that the rooted `Parser.stat` does not report
+    missing beneath the root. -/
+theorem C03_findFile_spec (fs : FS) (root dir : Comps) (layer : String) (f : Comps)
+    (h : fs.findRooted root dir layer = some f) :
+    ∃ e, e ∈ supportedExts ∧ f = dir ++ [layer ++ "." ++ e] ∧
+      fs.rootExists root (relTo root f) = true :=
+  findRooted_some fs root dir layer f h
 
-example : chainFS.findFile ["w"] "a.b" = some ["w", "a.b.json"] :=
-  findFile_layerFile chainFS_plain (by decide) chainFS_ab
+example : chainFS.findRooted [] ["w"] "a.b" = some ["w", "a.b.json"] :=
+  findRooted_layerFile chainFS_plain (by decide) chainFS_ab
 
 /-- Concrete names: `a.b.c.yaml → a.b`, `a.b.yaml → a`, `a.yaml` has two parts (no parent),
     `Makefile` has one (invalid). -/
@@ -84,34 +91,37 @@ theorem C03_filename_layers :
 
 /-- The same for any supported extension `e` (symbolic): the parents of `d/a.b.c.e`, `d/a.b.e`
     and `d/a.e`, given by the file found for the layer. -/
-theorem C03_filename_parent_ext (fs : FS) (d : Comps) (e : String) (he : e ∈ supportedExts) :
-    fromName fs (d ++ ["a.b.c" ++ "." ++ e]) =
-      (match fs.findFile d "a.b" with | some f => .ok [f] | none => .error .missingFile) ∧
-    fromName fs (d ++ ["a.b" ++ "." ++ e]) =
-      (match fs.findFile d "a" with | some f => .ok [f] | none => .error .missingFile) ∧
-    fromName fs (d ++ ["a" ++ "." ++ e]) = .ok [] := by
+theorem C03_filename_parent_ext (fs : FS) (cfg : RootCfg) (d : Comps) (e : String)
+    (he : e ∈ supportedExts) :
+    fromName fs cfg (d ++ ["a.b.c" ++ "." ++ e]) =
+      (match fs.findRooted cfg.root d "a.b" with
+        | some f => .ok [f] | none => .error .missingFile) ∧
+    fromName fs cfg (d ++ ["a.b" ++ "." ++ e]) =
+      (match fs.findRooted cfg.root d "a" with
+        | some f => .ok [f] | none => .error .missingFile) ∧
+    fromName fs cfg (d ++ ["a" ++ "." ++ e]) = .ok [] := by
   have hd := supportedExt_noDot e he
   refine ⟨?_, ?_, ?_⟩
-  · rw [fromName_snoc fs d _ e hd, parts_abc]
+  · rw [fromName_snoc fs cfg d _ e hd, parts_abc]
     have : ".".intercalate (["a", "b", "c"] : List String).dropLast = "a.b" := by decide
     rw [this]; rfl
-  · rw [fromName_snoc fs d _ e hd, parts_ab]
+  · rw [fromName_snoc fs cfg d _ e hd, parts_ab]
     have : ".".intercalate (["a", "b"] : List String).dropLast = "a" := by decide
     rw [this]; rfl
-  · rw [fromName_snoc fs d _ e hd, parts_a]; rfl
+  · rw [fromName_snoc fs cfg d _ e hd, parts_a]; rfl
 
 example : "toml" ∈ supportedExts := by decide
 
 /-- a missing layer is an error: `/w/orphan.x.yaml` has no `orphan.*` -/
-example : fileParents chainFS ["w", "orphan.x.yaml"] [.map []] = .error .missingFile := by
+example : fileParents chainFS ⟨[], []⟩ ["w", "orphan.x.yaml"] [.map []] = .error .missingFile := by
   have hl : chainFS.evalSymlinks (["w"] ++ ["orphan.x.yaml"]) = some (["w"] ++ ["orphan.x.yaml"]) :=
     evalSymlinks_file (n := .file (.ok [.map []])) chainFS_plain (by decide) (by decide) rfl
-  have hn : chainFS.findFile ["w"] "orphan" = none :=
-    findFile_none_of_missing chainFS_plain (by decide) (by
+  have hn : chainFS.findRooted [] ["w"] "orphan" = none :=
+    findRooted_none_of_missing chainFS_plain (by decide) (by
       intro e he
       simp only [supportedExts, List.mem_cons, List.not_mem_nil, or_false] at he
       rcases he with rfl | rfl | rfl | rfl | rfl | rfl <;> decide)
-  have h3 := C03_filename_parent chainFS ["w", "orphan.x.yaml"] [.map []]
+  have h3 := C03_filename_parent chainFS ⟨[], []⟩ ["w", "orphan.x.yaml"] [.map []]
     (by intro d hd; have : d = Val.map [] := by simpa using hd
         subst this; rfl) hl
   simp only [] at h3
@@ -213,12 +223,13 @@ example : PlainDir chainFS ["w"] ∧
     glob matches of those names, relative to the file's directory, in order; a name matching
     nothing is an error.  Neither `evalSymlinks path` nor `findFile` occurs on the right-hand
     side: the symlink and filename rules are not consulted. -/
-theorem C03_priority (fs : FS) (path : Comps) (docs : List Val) (dirs : List ParentDir)
+theorem C03_priority (fs : FS) (cfg : RootCfg) (path : Comps) (docs : List Val)
+    (dirs : List ParentDir)
     (hd : docs.mapM parentDirective = .ok dirs) (hnp : hasNoParent dirs = false)
     (hn : parentNames dirs ≠ []) :
-    fileParents fs path docs =
-      if (parentNames dirs).any (fun n => (globName fs path n).isEmpty) then .error .missingFile
-      else .ok ((parentNames dirs).flatMap (globName fs path)) := by
+    fileParents fs cfg path docs =
+      if (parentNames dirs).any (fun n => (globName fs cfg path n).isEmpty) then .error .missingFile
+      else .ok ((parentNames dirs).flatMap (globName fs cfg path)) := by
   rw [fileParents_eq, hd]
   have : (parentNames dirs).isEmpty = false := by
     cases h : parentNames dirs with
@@ -229,15 +240,15 @@ theorem C03_priority (fs : FS) (path : Comps) (docs : List Val) (dirs : List Par
   rfl
 
 /-- One document with `$parent: "x"`: the glob of `x` next to the file. -/
-theorem C03_priority_str (fs : FS) (path : Comps) (kvs : Fields) (x : String)
+theorem C03_priority_str (fs : FS) (cfg : RootCfg) (path : Comps) (kvs : Fields) (x : String)
     (h : fget kvs "$parent" = some (.str x)) :
-    fileParents fs path [.map kvs] =
+    fileParents fs cfg path [.map kvs] =
       let target := cleanComps (dirOf path ++ splitPath x)
-      let ms := fs.globFiles (dirOf target) (baseOf target)
+      let ms := fs.globFiles cfg.root target
       if ms.isEmpty then .error .missingFile else .ok ms := by
   have hd : [Val.map kvs].mapM parentDirective = .ok [.names [x]] := by
     rw [mapM_R_cons, mapM_R_nil, parentDirective_map, h]
-  rw [C03_priority fs path _ _ hd rfl (by simp [parentNames])]
+  rw [C03_priority fs cfg path _ _ hd rfl (by simp [parentNames])]
   simp [parentNames, globName]
 
 example : fget [("$parent", Val.str "a")] "$parent" = some (.str "a") := by decide
@@ -250,7 +261,7 @@ example : [Val.map [("$parent", .str "a")], .map [("x", .int 1)]].mapM parentDir
   rw [mapM_R_cons, mapM_R_cons, mapM_R_nil]; rfl
 
 /-- the self-parent file: `$parent: a` in `/a.yaml` resolves to `/a.yaml` itself -/
-example : fileParents selfFS ["a.yaml"] [.map [("$parent", .str "a")]] = .ok [["a.yaml"]] :=
+example : fileParents selfFS ⟨[], []⟩ ["a.yaml"] [.map [("$parent", .str "a")]] = .ok [["a.yaml"]] :=
   selfFS_parents
 
 /-! ## stopping the chain -/
@@ -265,13 +276,13 @@ theorem C03_stop_directive (kvs : Fields) :
 /-- With a "no parent" directive (and no name directive) the file has no parents, whatever its
     name or symlink says; together with a name directive it is a conflict; an invalid directive
     anywhere is `invalidParent`. -/
-theorem C03_stop (fs : FS) (path : Comps) (docs : List Val) :
+theorem C03_stop (fs : FS) (cfg : RootCfg) (path : Comps) (docs : List Val) :
     (∀ dirs, docs.mapM parentDirective = .ok dirs → hasNoParent dirs = true →
-      parentNames dirs = [] → fileParents fs path docs = .ok []) ∧
+      parentNames dirs = [] → fileParents fs cfg path docs = .ok []) ∧
     (∀ dirs, docs.mapM parentDirective = .ok dirs → hasNoParent dirs = true →
-      parentNames dirs ≠ [] → fileParents fs path docs = .error .conflictingParent) ∧
+      parentNames dirs ≠ [] → fileParents fs cfg path docs = .error .conflictingParent) ∧
     (∀ d e, d ∈ docs → parentDirective d = .error e →
-      fileParents fs path docs = .error .invalidParent) := by
+      fileParents fs cfg path docs = .error .invalidParent) := by
   refine ⟨?_, ?_, ?_⟩
   · intro dirs hd hnp hn
     rw [fileParents_eq, hd]
@@ -307,29 +318,29 @@ example : Val.map [("$parent", .bool true)] ∈ [Val.map [("x", .int 1)], .map [
   ⟨by simp, rfl⟩
 
 /-- single-document instances -/
-theorem C03_stop_single (fs : FS) (path : Comps) (kvs : Fields) :
-    (fget kvs "$parent" = some (.bool false) → fileParents fs path [.map kvs] = .ok []) ∧
-    (fget kvs "$parent" = some .null → fileParents fs path [.map kvs] = .ok []) ∧
+theorem C03_stop_single (fs : FS) (cfg : RootCfg) (path : Comps) (kvs : Fields) :
+    (fget kvs "$parent" = some (.bool false) → fileParents fs cfg path [.map kvs] = .ok []) ∧
+    (fget kvs "$parent" = some .null → fileParents fs cfg path [.map kvs] = .ok []) ∧
     (fget kvs "$parent" = some (.bool true) →
-      fileParents fs path [.map kvs] = .error .invalidParent) ∧
+      fileParents fs cfg path [.map kvs] = .error .invalidParent) ∧
     (∀ kvs' x, fget kvs "$parent" = some (.bool false) → fget kvs' "$parent" = some (.str x) →
-      fileParents fs path [.map kvs, .map kvs'] = .error .conflictingParent) := by
+      fileParents fs cfg path [.map kvs, .map kvs'] = .error .conflictingParent) := by
   have hs := C03_stop_directive kvs
   refine ⟨?_, ?_, ?_, ?_⟩
   · intro h
     have hd : [Val.map kvs].mapM parentDirective = .ok [.noParent] := by
       rw [mapM_R_cons, mapM_R_nil, hs.1 h]
-    exact (C03_stop fs path _).1 _ hd rfl rfl
+    exact (C03_stop fs cfg path _).1 _ hd rfl rfl
   · intro h
     have hd : [Val.map kvs].mapM parentDirective = .ok [.noParent] := by
       rw [mapM_R_cons, mapM_R_nil, hs.2.1 h]
-    exact (C03_stop fs path _).1 _ hd rfl rfl
+    exact (C03_stop fs cfg path _).1 _ hd rfl rfl
   · intro h
-    exact (C03_stop fs path _).2.2 _ _ List.mem_cons_self (hs.2.2 h)
+    exact (C03_stop fs cfg path _).2.2 _ _ List.mem_cons_self (hs.2.2 h)
   · intro kvs' x h h'
     have hd : [Val.map kvs, Val.map kvs'].mapM parentDirective = .ok [.noParent, .names [x]] := by
       rw [mapM_R_cons, mapM_R_cons, mapM_R_nil, hs.1 h, parentDirective_map kvs', h']
-    exact (C03_stop fs path _).2.1 _ hd rfl (by simp [parentNames])
+    exact (C03_stop fs cfg path _).2.1 _ hd rfl (by simp [parentNames])
 
 example : fget [("$parent", Val.bool false), ("x", .int 1)] "$parent" = some (.bool false) ∧
     fget [("$parent", Val.null)] "$parent" = some .null ∧
@@ -337,24 +348,40 @@ example : fget [("$parent", Val.bool false), ("x", .int 1)] "$parent" = some (.b
 
 /-! ## wildcards do not cross dots -/
 
-/-- Everything `globFiles dir base` returns is `dir/n` for a name `n` that matches `base.*`
-    with exactly as many dots as the pattern (so `*` never matched across a dot) and a supported
-    extension. -/
-theorem C03_wildcard_no_dot (fs : FS) (dir : Comps) (base : String) :
-    ∀ f ∈ fs.globFiles dir base,
-      countDots (baseOf f) = countDots (base ++ ".*") ∧
+/-- Everything `globFiles root target` returns lies beneath the root and has, relative to the
+    root, the shape of the pattern `target.*`: as many components, exactly as many dots in
+    total as the pattern (so no `*` ever matched across a dot), a supported extension, and a
+    base name that matches `base.*`.  When the directory part of the pattern holds no wildcard
+    the match is `dir/n` in the target's own directory, with exactly the pattern's number of
+    dots in `n`. -/
+theorem C03_wildcard_no_dot (fs : FS) (root target : Comps) :
+    ∀ f ∈ fs.globFiles root target,
+      let pat := relTo root (dirOf target ++ [baseOf target ++ ".*"])
+      root <+: f ∧
+      ((relTo root f).map countDots).sum = (pat.map countDots).sum ∧
+      (relTo root f).length = pat.length ∧
       supportedExts.contains (extOf (baseOf f)) = true ∧
-      dirOf f = dir ∧
-      globMatch (base ++ ".*").toList (baseOf f).toList
-        ((base ++ ".*").length + (baseOf f).length + 1) = true := by
+      globMatch (baseOf target ++ ".*").toList (baseOf f).toList
+        ((baseOf target ++ ".*").length + (baseOf f).length + 1) = true ∧
+      ((dirOf pat).any hasMeta = false →
+        dirOf f = dirOf target ∧ countDots (baseOf f) = countDots (baseOf target ++ ".*")) := by
   intro f hf
-  obtain ⟨rdir, n, _, rfl, hn⟩ := mem_globFiles hf
-  obtain ⟨h1, h2, h3, _⟩ := mem_globNames hn
-  rw [baseOf_snoc, dirOf_snoc]
-  exact ⟨h2, h3, rfl, h1⟩
+  obtain ⟨dpat, m, n, hpat, hroot, rfl, hlen, hnm, _, hmatch, hsum, hext⟩ := mem_globFiles_spec hf
+  simp only []
+  rw [hpat, baseOf_snoc, List.append_assoc, relTo_append, dirOf_snoc]
+  refine ⟨List.prefix_append _ _, hsum, by simp [hlen], hext, hmatch, ?_⟩
+  intro hm
+  have := hnm hm
+  subst this
+  rw [← List.append_assoc, dirOf_snoc]
+  refine ⟨hroot, ?_⟩
+  simp only [List.map_append, List.sum_append, List.map_cons, List.map_nil, List.sum_cons,
+    List.sum_nil, Nat.add_zero] at hsum
+  omega
 
-example : ["a.yaml"] ∈ selfFS.globFiles [] "a" := by
-  rw [globFiles_singleton (rdir := []) (by decide) selfFS_glob]
+example : ["a.yaml"] ∈ selfFS.globFiles [] ([] ++ ["a"]) := by
+  rw [globFiles_singleton_noroot (d := []) (real := []) (by decide) (by decide) (by decide)
+    (by decide) selfFS_glob]
   exact List.mem_cons_self
 
 /-! ## inputs left to right, `-P` -/
@@ -653,7 +680,7 @@ example : PlainDir (deepFS [] 10) ["w"] ∧
 
 /-- **Partial** (at most `loadFuel = 64` layers above the missing one; see
     `C03_missing_layer_is_error_false`): in the chain `a₁, …, aₙ` let the middle layer
-    `a₁.….aₖ` (`pre`, `1 ≤ k`) be provided by no file (`findFile` finds none: no supported
+    `a₁.….aₖ` (`pre`, `1 ≤ k`) be provided by no file (the rooted `findFile` of `fileParents` finds none — `findRooted`, no root set: no supported
     extension exists — see the second example below for the `lstat` form), while the layers
     `k+1 … n` (`P ++ [x]`, so `k < n`) are provided as in `C03_chain_order_n_partial`.  Nothing is
     assumed about the layers below `k`.  Then loading the top file — and hence
@@ -665,7 +692,7 @@ theorem C03_missing_layer_is_error_partial (fs : FS) (d cwd : Comps) (pre : List
     (hok : ∀ P' y, P' ++ [y] <+: P ++ [x] →
       LayerFile fs d (layerName (pre ++ (P' ++ [y]).map (·.name))) y.ext (.ok y.docs) ∧
         ∀ v ∈ y.docs, parentDirective v = .ok .absent)
-    (hmiss : fs.findFile d (layerName pre) = none) :
+    (hmiss : fs.findRooted [] d (layerName pre) = none) :
     loadFileAndParents fs ⟨[], cwd⟩ loadFuel (prefixPath d pre (P ++ [x])) none [] [] =
       .error .missingFile ∧
     ∀ st, mergeFileLayers fs ⟨[], cwd⟩ st (prefixPath d pre (P ++ [x])) = .error .missingFile := by
@@ -682,7 +709,7 @@ theorem C03_missing_layer_never_ok (fs : FS) (d cwd : Comps) (pre : List String)
     (hok : ∀ P' y, P' ++ [y] <+: P ++ [x] →
       LayerFile fs d (layerName (pre ++ (P' ++ [y]).map (·.name))) y.ext (.ok y.docs) ∧
         ∀ v ∈ y.docs, parentDirective v = .ok .absent)
-    (hmiss : fs.findFile d (layerName pre) = none) :
+    (hmiss : fs.findRooted [] d (layerName pre) = none) :
     loadFileAndParents fs ⟨[], cwd⟩ loadFuel (prefixPath d pre (P ++ [x])) none [] [] =
       .error (if (P ++ [x]).length ≤ loadFuel then .missingFile else .circularRef) ∧
     (∀ st st', mergeFileLayers fs ⟨[], cwd⟩ st (prefixPath d pre (P ++ [x])) ≠ .ok st') := by
@@ -706,7 +733,7 @@ theorem C03_missing_layer_is_error_false :
       PlainDir fs d ∧ pre ≠ [] ∧ (∀ n ∈ pre, PlainName n) ∧ (∀ y ∈ P ++ [x], PlainName y.name) ∧
       ChainFilesOK fs d pre (P ++ [x]) ∧
       (∀ e ∈ supportedExts, fs.lstat (d ++ [layerName pre ++ "." ++ e]) = none) ∧
-      fs.findFile d (layerName pre) = none ∧
+      fs.findRooted [] d (layerName pre) = none ∧
       loadFileAndParents fs ⟨[], cwd⟩ loadFuel (prefixPath d pre (P ++ [x])) none [] [] =
         .error .circularRef := by
   have hrep : List.replicate 64 deepLayer ++ [deepLayer] = List.replicate 65 deepLayer :=
@@ -725,16 +752,16 @@ theorem C03_missing_layer_is_error_false :
   have hm := deepFS_missing ["z"] 65 (by simp) hpre
   refine ⟨deepFS ["z"] 65, ["w"], [], ["z"], List.replicate 64 deepLayer, deepLayer,
     deepFS_plain ["z"] 65, by simp, hpre, hpl, hok, hm, ?_, ?_⟩
-  · exact findFile_none_of_missing (deepFS_plain ["z"] 65) (by decide) hm
+  · exact findRooted_none_of_missing (deepFS_plain ["z"] 65) (by decide) hm
   · exact load_chain_nofuel (deepFS_plain ["z"] 65) _ _ (by simp [loadFuel]) hpre hpl hok
 
 /-- non-vacuity of `C03_missing_layer_is_error_partial`: ten layers `z.a`, …, `z.a.….a` above the
-    missing layer `z` (and `findFile` is `none` because no `z.<ext>` exists) -/
+    missing layer `z` (and `findRooted` is `none` because no `z.<ext>` exists) -/
 example : PlainDir (deepFS ["z"] 10) ["w"] ∧
     (List.replicate 9 deepLayer ++ [deepLayer]).length ≤ loadFuel ∧
     (∀ y ∈ List.replicate 9 deepLayer ++ [deepLayer], PlainName y.name) ∧
     ChainFilesOK (deepFS ["z"] 10) ["w"] ["z"] (List.replicate 9 deepLayer ++ [deepLayer]) ∧
-    (deepFS ["z"] 10).findFile ["w"] (layerName ["z"]) = none := by
+    (deepFS ["z"] 10).findRooted [] ["w"] (layerName ["z"]) = none := by
   have hrep : List.replicate 9 deepLayer ++ [deepLayer] = List.replicate 10 deepLayer :=
     (List.replicate_succ' (n := 9) (a := deepLayer)).symm
   have hpre : ∀ n ∈ ["z"], PlainName n := by
@@ -747,15 +774,15 @@ example : PlainDir (deepFS ["z"] 10) ["w"] ∧
     rw [(List.mem_replicate.1 hy).2]
     exact deepLayer_plain
   · rw [hrep]; exact deepFS_chainOK ["z"] 10
-  · exact findFile_none_of_missing (deepFS_plain ["z"] 10) (by decide)
+  · exact findRooted_none_of_missing (deepFS_plain ["z"] 10) (by decide)
       (deepFS_missing ["z"] 10 (by simp) hpre)
 
-/-- the `lstat` form of "no file under any supported extension" implies the `findFile` form -/
+/-- the `lstat` form of "no file under any supported extension" implies the `findRooted` form -/
 example (fs : FS) (d : Comps) (pre : List String) (hd : PlainDir fs d) (hne : pre ≠ [])
     (hpre : ∀ n ∈ pre, PlainName n)
     (h : ∀ e ∈ supportedExts, fs.lstat (d ++ [layerName pre ++ "." ++ e]) = none) :
-    fs.findFile d (layerName pre) = none :=
-  findFile_none_of_missing hd (layer_length_pos _ hne (fun n hn => (hpre n hn).1)) h
+    fs.findRooted [] d (layerName pre) = none :=
+  findRooted_none_of_missing hd (layer_length_pos _ hne (fun n hn => (hpre n hn).1)) h
 
 /-- non-vacuity on the sample file system: `/w/orphan.x.yaml` exists, no `/w/orphan.*` does -/
 example : mergeFileLayers chainFS ⟨[], []⟩ PState.empty (prefixPath ["w"] ["orphan"] ([] ++ [⟨"x", "yaml", [.map []]⟩])) =
@@ -772,8 +799,8 @@ example : mergeFileLayers chainFS ⟨[], []⟩ PState.empty (prefixPath ["w"] ["
   have hok := chainFilesOK_snoc (x := ⟨"x", "yaml", [.map []]⟩) (chainFilesOK_nil chainFS ["w"] ["orphan"]) hx
     (by intro v hv; have : v = _ := List.mem_singleton.1 hv
         subst this; rfl)
-  have hm : chainFS.findFile ["w"] (layerName ["orphan"]) = none :=
-    findFile_none_of_missing chainFS_plain (by decide) (by
+  have hm : chainFS.findRooted [] ["w"] (layerName ["orphan"]) = none :=
+    findRooted_none_of_missing chainFS_plain (by decide) (by
       intro e he
       simp only [supportedExts, List.mem_cons, List.not_mem_nil, or_false] at he
       rcases he with rfl | rfl | rfl | rfl | rfl | rfl <;> decide)
@@ -791,56 +818,77 @@ example : mergeFileLayers chainFS ⟨[], []⟩ PState.empty (prefixPath ["w"] ["
     something, see `C03_parent_entry_names_nothing_iff`), then the file's parents are a
     `missingFile` error, and so is loading the file (at any depth of a load) and layering it onto
     any parser state.  The dangling name is never skipped. -/
-theorem C03_parent_missing_entry_is_error (fs : FS) (path : Comps) (docs : List Val)
+theorem C03_parent_missing_entry_is_error (fs : FS) (cfg : RootCfg) (path : Comps) (docs : List Val)
     (dirs : List ParentDir) (n : String)
     (hd : docs.mapM parentDirective = .ok dirs) (hnp : hasNoParent dirs = false)
-    (hn : n ∈ parentNames dirs) (hg : globName fs path n = []) :
-    fileParents fs path docs = .error .missingFile ∧
-    (∀ cfg fuel c ids chain, chain.contains path = false →
+    (hn : n ∈ parentNames dirs) (hg : globName fs cfg path n = []) :
+    fileParents fs cfg path docs = .error .missingFile ∧
+    (∀ fuel c ids chain, chain.contains path = false →
       loadFile fs cfg path (fileIdOf c path) = .ok docs →
       loadFileAndParents fs cfg (fuel + 1) path c ids chain = .error .missingFile) ∧
-    (∀ cfg st, loadFile fs cfg path (pathStr path) = .ok docs →
+    (∀ st, loadFile fs cfg path (pathStr path) = .ok docs →
       mergeFileLayers fs cfg st path = .error .missingFile) := by
-  have hp := fileParents_missing_entry fs path docs dirs n hd hnp hn hg
+  have hp := fileParents_missing_entry fs cfg path docs dirs n hd hnp hn hg
   refine ⟨hp, ?_, ?_⟩
-  · intro cfg fuel c ids chain hc hl
+  · intro fuel c ids chain hc hl
     exact lfp_parents_error hc hl hp
-  · intro cfg st hl
+  · intro st hl
     rw [mergeFileLayers_eq, show loadFuel = 63 + 1 from rfl,
       lfp_parents_error (c := []) (childId := none) (fuel := 63) (List.contains_nil) hl hp]
 
 /-- The list form: one document whose `$parent` is a list of strings with the dangling name `n`
     anywhere in it. -/
-theorem C03_parent_list_missing_entry (fs : FS) (path : Comps) (kvs : Fields)
+theorem C03_parent_list_missing_entry (fs : FS) (cfg : RootCfg) (path : Comps) (kvs : Fields)
     (before after : List String) (n : String)
     (h : fget kvs "$parent" = some (.list ((before ++ n :: after).map Val.str)))
-    (hg : globName fs path n = []) :
-    fileParents fs path [.map kvs] = .error .missingFile ∧
-    (∀ cfg st, loadFile fs cfg path (pathStr path) = .ok [.map kvs] →
+    (hg : globName fs cfg path n = []) :
+    fileParents fs cfg path [.map kvs] = .error .missingFile ∧
+    (∀ st, loadFile fs cfg path (pathStr path) = .ok [.map kvs] →
       mergeFileLayers fs cfg st path = .error .missingFile) := by
   have hd : [Val.map kvs].mapM parentDirective = .ok [.names (before ++ n :: after)] := by
     rw [mapM_R_cons, mapM_R_nil, parentDirective_map, h]
     simp only [toStringList_strs]
-  have := C03_parent_missing_entry_is_error fs path _ _ n hd rfl
+  have := C03_parent_missing_entry_is_error fs cfg path _ _ n hd rfl
     (by simp [parentNames]) hg
   exact ⟨this.1, this.2.2⟩
 
-/-- What "`n` names nothing" means: relative to the file's directory the pattern `n.*` selects
-    no entry — the directory does not resolve, or none of its entries matches `n.*` with the
-    same number of dots and a supported extension. -/
-theorem C03_parent_entry_names_nothing_iff (fs : FS) (path : Comps) (n : String) :
+/-- What "`n` names nothing" means.  A pattern whose directory is not beneath the root names
+    nothing.  Otherwise (the directory part, relative to the root, holding no wildcard) the
+    pattern `n.*` selects no entry: the directory cannot be opened beneath the root
+    (`rootOpenDir`: missing, not a directory, or the walk is refused), or none of its entries
+    matches `n.*` with the same number of dots and a supported extension. -/
+theorem C03_parent_entry_names_nothing_iff (fs : FS) (cfg : RootCfg) (path : Comps) (n : String) :
     let target := cleanComps (dirOf path ++ splitPath n)
-    globName fs path n = [] ↔
-      fs.evalSymlinks (dirOf target) = none ∨
-      ∃ rdir, fs.evalSymlinks (dirOf target) = some rdir ∧
-        ∀ e ∈ fs.entries, e.1 ≠ [] → e.1.dropLast = rdir →
-          ¬ (globMatch (baseOf target ++ ".*").toList (baseOf e.1).toList
-                ((baseOf target ++ ".*").length + (baseOf e.1).length + 1) = true ∧
-              countDots (baseOf e.1) = countDots (baseOf target ++ ".*") ∧
-              supportedExts.contains (extOf (baseOf e.1)) = true) := by
-  intro target
+    let rel := relTo cfg.root (dirOf target)
+    (¬ cfg.root <+: dirOf target → globName fs cfg path n = []) ∧
+    (cfg.root <+: dirOf target → rel.any hasMeta = false →
+      (globName fs cfg path n = [] ↔
+        (∀ rdir, fs.rootOpenDir cfg.root rel ≠ .ok rdir) ∨
+        ∃ rdir, fs.rootOpenDir cfg.root rel = .ok rdir ∧
+          ∀ e ∈ fs.entries, e.1 ≠ [] → e.1.dropLast = rdir →
+            ¬ (globMatch (baseOf target ++ ".*").toList (baseOf e.1).toList
+                  ((baseOf target ++ ".*").length + (baseOf e.1).length + 1) = true ∧
+                countDots (baseOf e.1) = countDots (baseOf target ++ ".*") ∧
+                supportedExts.contains (extOf (baseOf e.1)) = true))) := by
+  intro target rel
+  refine ⟨fun h => globFiles_outside fs cfg.root target h, ?_⟩
+  intro hin hm
   unfold globName
-  rw [globFiles_eq_nil_iff]
+  have hfull : cfg.root ++ rel = dirOf target := by
+    obtain ⟨t, ht⟩ := hin
+    simp only [rel]
+    rw [← ht, relTo_append]
+  have hplain : ∀ c ∈ rel, plainComp c = true := by
+    intro c hc
+    apply cleanComps_allPlain (dirOf path ++ splitPath n)
+    apply List.dropLast_subset
+    show c ∈ dirOf target
+    rw [← hfull]
+    exact List.mem_append_right _ hc
+  rw [globFiles_congr_target fs cfg.root (t := cleanComps (dirOf path ++ splitPath n))
+      (t' := cfg.root ++ rel ++ [baseOf target])
+      (by rw [dirOf_snoc]; exact hfull.symm) (by rw [baseOf_snoc]),
+    globFiles_eq_nil_iff fs cfg.root rel (baseOf target) hplain hm]
   constructor
   · rintro (h | ⟨r, hr, h⟩)
     · exact Or.inl h
@@ -853,8 +901,8 @@ theorem C03_parent_entry_names_nothing_iff (fs : FS) (path : Comps) (n : String)
 example :
     fget [("$parent", Val.list [.str "a", .str "nope", .str "a"]), ("y", .int 2)] "$parent" =
       some (.list ((["a"] ++ "nope" :: ["a"]).map Val.str)) ∧
-    globName danglingFS ["w", "top.yaml"] "a" = [["w", "a.yaml"]] ∧
-    globName danglingFS ["w", "top.yaml"] "nope" = [] ∧
+    globName danglingFS ⟨[], []⟩ ["w", "top.yaml"] "a" = [["w", "a.yaml"]] ∧
+    globName danglingFS ⟨[], []⟩ ["w", "top.yaml"] "nope" = [] ∧
     loadFile danglingFS ⟨[], []⟩ ["w", "top.yaml"] (pathStr ["w", "top.yaml"]) =
       .ok [.map [("$parent", .list [.str "a", .str "nope", .str "a"]), ("y", .int 2)]] ∧
     mergeFileLayers danglingFS ⟨[], []⟩ PState.empty ["w", "top.yaml"] = .error .missingFile := by
@@ -869,8 +917,8 @@ example :
     simp only [h2]
     rfl
   refine ⟨by decide, danglingFS_glob_a, danglingFS_glob_nope, hl, ?_⟩
-  exact (C03_parent_list_missing_entry danglingFS ["w", "top.yaml"] _ ["a"] ["a"] "nope"
-    (by decide) danglingFS_glob_nope).2 _ _ hl
+  exact (C03_parent_list_missing_entry danglingFS ⟨[], []⟩ ["w", "top.yaml"] _ ["a"] ["a"] "nope"
+    (by decide) danglingFS_glob_nope).2 _ hl
 
 /-! ## filenames and `$parent` are interchangeable -/
 
@@ -895,8 +943,8 @@ theorem C03_directive_equiv (fs : FS) (d d' cwd : Comps) (e₁ e₂ e₃ x y z f
     (g₁ : LayerFile fs d' x f₁ (.ok [v₁])) (g₂ : LayerFile fs d' y f₂ (.ok [.map k₂]))
     (g₃ : LayerFile fs d' z f₃ (.ok [.map k₃]))
     (p₂ : fget k₂ "$parent" = some (.str n₁)) (p₃ : fget k₃ "$parent" = some (.str n₂))
-    (gl₂ : globName fs (d' ++ [y ++ "." ++ f₂]) n₁ = [d' ++ [x ++ "." ++ f₁]])
-    (gl₃ : globName fs (d' ++ [z ++ "." ++ f₃]) n₂ = [d' ++ [y ++ "." ++ f₂]]) :
+    (gl₂ : globName fs ⟨[], cwd⟩ (d' ++ [y ++ "." ++ f₂]) n₁ = [d' ++ [x ++ "." ++ f₁]])
+    (gl₃ : globName fs ⟨[], cwd⟩ (d' ++ [z ++ "." ++ f₃]) n₂ = [d' ++ [y ++ "." ++ f₂]]) :
     let pA := d ++ ["a.b.c" ++ "." ++ e₃]
     let pB := d' ++ [z ++ "." ++ f₃]
     (∃ filesA idsA filesB idsB,
@@ -944,15 +992,15 @@ theorem C03_directive_equiv (fs : FS) (d d' cwd : Comps) (e₁ e₂ e₃ x y z f
     rw [← e, gl₂] at gl₃
     injection gl₃ with gl₃
     exact n12 gl₃
-  have hp₁ : fileParents fs (d' ++ [x ++ "." ++ f₁]) [v₁] = .ok [] := by
-    rw [fileParents_layer hd' hx g₁ (by simpa using a₁), splitOn_dot_plain x hxd]; rfl
+  have hp₁ : fileParents fs ⟨[], cwd⟩ (d' ++ [x ++ "." ++ f₁]) [v₁] = .ok [] := by
+    rw [fileParents_layer ⟨[], cwd⟩ hd' hx g₁ (by simpa using a₁), splitOn_dot_plain x hxd]; rfl
   have hB : loadFileAndParents fs ⟨[], cwd⟩ loadFuel pB none [] [] =
       .ok (chain3Files (d' ++ [x ++ "." ++ f₁]) (d' ++ [y ++ "." ++ f₂]) pB v₁
         (stripParent (.map k₂)) (stripParent (.map k₃)), [pathStr pB ++ "|doc" ++ toString 0]) := by
     have := lfp_gen3 (cfg := ⟨[], cwd⟩) (fun fid => loadFile_layerFile hd' hx g₁ cwd fid)
       (fun fid => loadFile_layerFile hd' hy g₂ cwd fid)
       (fun fid => loadFile_layerFile hd' hz g₃ cwd fid) hp₁
-      (fileParents_str_single fs _ _ k₂ n₁ p₂ gl₂) (fileParents_str_single fs _ _ k₃ n₂ p₃ gl₃)
+      (fileParents_str_single fs _ _ _ k₂ n₁ p₂ gl₂) (fileParents_str_single fs _ _ _ k₃ n₂ p₃ gl₃)
       n12 n13 n23 61 none [] [] rfl rfl rfl
     rw [stripParent_of_absent v₁ a₁] at this
     exact this
@@ -969,7 +1017,7 @@ theorem C03_directive_equiv_2 (fs : FS) (d d' cwd : Comps) (e₁ e₂ x y f₁ f
     (hx : 0 < x.length) (hxd : '.' ∉ x.toList) (hy : 0 < y.length)
     (g₁ : LayerFile fs d' x f₁ (.ok [v₁])) (g₂ : LayerFile fs d' y f₂ (.ok [.map k₂]))
     (p₂ : fget k₂ "$parent" = some (.str n₁))
-    (gl₂ : globName fs (d' ++ [y ++ "." ++ f₂]) n₁ = [d' ++ [x ++ "." ++ f₁]]) :
+    (gl₂ : globName fs ⟨[], cwd⟩ (d' ++ [y ++ "." ++ f₂]) n₁ = [d' ++ [x ++ "." ++ f₁]]) :
     let pA := d ++ ["a.b" ++ "." ++ e₂]
     let pB := d' ++ [y ++ "." ++ f₂]
     (∃ filesA idsA filesB idsB,
@@ -994,14 +1042,14 @@ theorem C03_directive_equiv_2 (fs : FS) (d d' cwd : Comps) (e₁ e₂ x y f₁ f
     chain2 hd h₁ h₂ a₁ (parentDirective_stripParent _) 62 none [] [] rfl rfl
   have n12 : d' ++ [x ++ "." ++ f₁] ≠ d' ++ [y ++ "." ++ f₂] :=
     layerFile_path_ne g₁ g₂ (absent_ne_str a₁ p₂)
-  have hp₁ : fileParents fs (d' ++ [x ++ "." ++ f₁]) [v₁] = .ok [] := by
-    rw [fileParents_layer hd' hx g₁ (by simpa using a₁), splitOn_dot_plain x hxd]; rfl
+  have hp₁ : fileParents fs ⟨[], cwd⟩ (d' ++ [x ++ "." ++ f₁]) [v₁] = .ok [] := by
+    rw [fileParents_layer ⟨[], cwd⟩ hd' hx g₁ (by simpa using a₁), splitOn_dot_plain x hxd]; rfl
   have hB : loadFileAndParents fs ⟨[], cwd⟩ loadFuel pB none [] [] =
       .ok (chain2Files (d' ++ [x ++ "." ++ f₁]) pB v₁ (stripParent (.map k₂)),
         [pathStr pB ++ "|doc" ++ toString 0]) := by
     have := lfp_gen2 (cfg := ⟨[], cwd⟩) (fun fid => loadFile_layerFile hd' hx g₁ cwd fid)
       (fun fid => loadFile_layerFile hd' hy g₂ cwd fid) hp₁
-      (fileParents_str_single fs _ _ k₂ n₁ p₂ gl₂) n12 62 none [] [] rfl rfl
+      (fileParents_str_single fs _ _ _ k₂ n₁ p₂ gl₂) n12 62 none [] [] rfl rfl
     rw [stripParent_of_absent v₁ a₁] at this
     exact this
   refine ⟨⟨_, _, _, _, hA, hB, rfl, rfl, rfl, rfl⟩, ?_⟩
@@ -1020,19 +1068,24 @@ example : PlainDir dirFS ["w"] ∧ PlainDir dirFS ["v"] ∧
     LayerFile dirFS ["v"] "top" "json" (.ok [.map [("$parent", .str "mid"), ("z", .int 3)]]) ∧
     fget [("$parent", Val.str "base"), ("y", .int 2)] "$parent" = some (.str "base") ∧
     fget [("$parent", Val.str "mid"), ("z", .int 3)] "$parent" = some (.str "mid") ∧
-    globName dirFS (["v"] ++ ["mid" ++ "." ++ "yaml"]) "base" = [["v"] ++ ["base" ++ "." ++ "yaml"]] ∧
-    globName dirFS (["v"] ++ ["top" ++ "." ++ "json"]) "mid" = [["v"] ++ ["mid" ++ "." ++ "yaml"]] :=
+    globName dirFS ⟨[], []⟩ (["v"] ++ ["mid" ++ "." ++ "yaml"]) "base" =
+      [["v"] ++ ["base" ++ "." ++ "yaml"]] ∧
+    globName dirFS ⟨[], []⟩ (["v"] ++ ["top" ++ "." ++ "json"]) "mid" =
+      [["v"] ++ ["mid" ++ "." ++ "yaml"]] :=
   ⟨dirFS_w, dirFS_v, dirFS_a, dirFS_ab, dirFS_abc, rfl, by decide, by decide, by decide, by decide,
     dirFS_base, dirFS_mid, dirFS_top, by decide, by decide, dirFS_glob_base, dirFS_glob_mid⟩
 
 /-- The same stated on files only: in a file system that lists no path twice, with `x`, `y`
     plain names (non-empty, no dots, wildcards or slashes), `y.f₂` saying `$parent: x` and `z.f₃`
-    saying `$parent: y`, the `$parent`-linked files evaluate exactly like the filename chain
+    saying `$parent: y`, in a directory `d'` whose own path holds no glob metacharacter (the
+    rooted glob expands wildcards in directory components too), the `$parent`-linked files
+    evaluate exactly like the filename chain
     `a`, `a.b`, `a.b.c` holding the same (stripped) documents. -/
 theorem C03_directive_equiv_files (fs : FS) (d d' cwd : Comps) (e₁ e₂ e₃ x y z f₁ f₂ f₃ : String)
     (v₁ : Val) (k₂ k₃ : Fields)
     (hnd : (fs.entries.map (·.1)).Nodup)
     (hd : PlainDir fs d) (hd' : PlainDir fs d')
+    (hdir' : fs.lstat d' = some .dir) (hmeta' : d'.any hasMeta = false)
     (h₁ : LayerFile fs d "a" e₁ (.ok [v₁]))
     (h₂ : LayerFile fs d "a.b" e₂ (.ok [stripParent (.map k₂)]))
     (h₃ : LayerFile fs d "a.b.c" e₃ (.ok [stripParent (.map k₃)]))
@@ -1065,19 +1118,23 @@ theorem C03_directive_equiv_files (fs : FS) (d d' cwd : Comps) (e₁ e₂ e₃ x
     Nat.pos_of_ne_zero (fun h0 => h.1 (String.length_eq_zero_iff.1 h0))
   C03_directive_equiv fs d d' cwd e₁ e₂ e₃ x y z f₁ f₂ f₃ x y v₁ k₂ k₃ hd hd' h₁ h₂ h₃ a₁
     (lenpos px) px.2 (lenpos py) hz g₁ g₂ g₃ p₂ p₃
-    (globName_plain hd' px wx g₁ hnd) (globName_plain hd' py wy g₂ hnd)
+    (globName_plain cwd hd' hdir' hmeta' px wx g₁ hnd) (globName_plain cwd hd' hdir' hmeta' py wy g₂ hnd)
 
-/-- non-vacuity: `dirFS` lists no path twice; `base`, `mid` are plain names -/
-example : (dirFS.entries.map (·.1)).Nodup ∧ PlainName "base" ∧ PlainName "mid" ∧
+/-- non-vacuity: `dirFS` lists no path twice; `/v` is a directory whose name holds no glob
+    metacharacter; `base`, `mid` are plain names -/
+example : (dirFS.entries.map (·.1)).Nodup ∧ dirFS.lstat ["v"] = some .dir ∧
+    ["v"].any hasMeta = false ∧ PlainName "base" ∧ PlainName "mid" ∧
     (∀ ch ∈ "base".toList, ch ≠ '*' ∧ ch ≠ '?' ∧ ch ≠ '/') ∧
     (∀ ch ∈ "mid".toList, ch ≠ '*' ∧ ch ≠ '?' ∧ ch ≠ '/') :=
-  ⟨by decide, ⟨by decide, by decide⟩, ⟨by decide, by decide⟩, by decide, by decide⟩
+  ⟨by decide, by decide, by decide, ⟨by decide, by decide⟩, ⟨by decide, by decide⟩, by decide,
+    by decide⟩
 
 /-- Two layers, stated on files only. -/
 theorem C03_directive_equiv_2_files (fs : FS) (d d' cwd : Comps) (e₁ e₂ x y f₁ f₂ : String)
     (v₁ : Val) (k₂ : Fields)
     (hnd : (fs.entries.map (·.1)).Nodup)
     (hd : PlainDir fs d) (hd' : PlainDir fs d')
+    (hdir' : fs.lstat d' = some .dir) (hmeta' : d'.any hasMeta = false)
     (h₁ : LayerFile fs d "a" e₁ (.ok [v₁]))
     (h₂ : LayerFile fs d "a.b" e₂ (.ok [stripParent (.map k₂)]))
     (a₁ : parentDirective v₁ = .ok .absent)
@@ -1104,7 +1161,7 @@ theorem C03_directive_equiv_2_files (fs : FS) (d d' cwd : Comps) (e₁ e₂ x y 
         outputDocuments (st.docs.map (·.2)) env) :=
   C03_directive_equiv_2 fs d d' cwd e₁ e₂ x y f₁ f₂ x v₁ k₂ hd hd' h₁ h₂ a₁
     (Nat.pos_of_ne_zero (fun h0 => px.1 (String.length_eq_zero_iff.1 h0))) px.2 hy g₁ g₂ p₂
-    (globName_plain hd' px wx g₁ hnd)
+    (globName_plain cwd hd' hdir' hmeta' px wx g₁ hnd)
 
 /-! ## symlinks inherit from the target's name -/
 
@@ -1125,21 +1182,21 @@ theorem C03_symlink_uses_target_name (fs : FS) (d cwd : Comps) (c t l e : String
     (hl' : fs.lstat (d ++ [l ++ "." ++ e]) = some (.file (.ok raw)))
     (hraw : ∀ v ∈ raw, parentDirective v = .ok .absent) :
     fs.evalSymlinks (d ++ [c]) = some (d ++ [l ++ "." ++ e]) ∧
-    fileParents fs (d ++ [c]) raw = fromName fs (d ++ [l ++ "." ++ e]) ∧
+    fileParents fs ⟨[], cwd⟩ (d ++ [c]) raw = fromName fs ⟨[], cwd⟩ (d ++ [l ++ "." ++ e]) ∧
     ('.' ∉ l.toList →
-      fileParents fs (d ++ [c]) raw = .ok [] ∧
+      fileParents fs ⟨[], cwd⟩ (d ++ [c]) raw = .ok [] ∧
       (supportedExts.contains (extOf c) = true → ∀ fuel,
         loadFileAndParents fs ⟨[], cwd⟩ (fuel + 1) (d ++ [c]) none [] [] =
           .ok ([{ id := pathStr (d ++ [c]), path := d ++ [c],
                   docs := plainDocs (pathStr (d ++ [c])) [] raw }],
             docIdsOf (pathStr (d ++ [c])) raw.length))) ∧
     (∀ l₀ b, l = l₀ ++ "." ++ b → '.' ∉ b.toList →
-      fileParents fs (d ++ [c]) raw =
-        (match fs.findFile d l₀ with
+      fileParents fs ⟨[], cwd⟩ (d ++ [c]) raw =
+        (match fs.findRooted [] d l₀ with
           | some f => .ok [f]
           | none => .error .missingFile) ∧
       (supportedExts.contains (extOf c) = true → ∀ fuel f sub ids,
-        fs.findFile d l₀ = some f →
+        fs.findRooted [] d l₀ = some f →
         loadFileAndParents fs ⟨[], cwd⟩ fuel f (some (pathStr (d ++ [c])))
           (docIdsOf (pathStr (d ++ [c])) raw.length) [d ++ [c]] = .ok (sub, ids) →
         loadFileAndParents fs ⟨[], cwd⟩ (fuel + 1) (d ++ [c]) none [] [] =
@@ -1150,22 +1207,22 @@ theorem C03_symlink_uses_target_name (fs : FS) (d cwd : Comps) (c t l e : String
             docIdsOf (pathStr (d ++ [c])) raw.length))) := by
   have hpl := plainComp_layer l e hll (supportedExt_length_pos e he)
   have hev := evalSymlinks_link hd hlen hc hl ha hs hpl hl' rfl
-  have hfp := fileParents_link (docs := raw) hd hlen hc hl ha hs hll he hl' rfl hraw
+  have hfp := fileParents_link (docs := raw) ⟨[], cwd⟩ hd hlen hc hl ha hs hll he hl' rfl hraw
   have hload : supportedExts.contains (extOf c) = true → ∀ fid,
       loadFile fs ⟨[], cwd⟩ (d ++ [c]) fid = .ok raw :=
     fun hce fid => loadFile_link hd hlen hc hce hl ha hs hll he hl' fid
   refine ⟨hev, ?_, ?_, ?_⟩
-  · rw [fileParents_no_directive fs _ raw hraw, hev]
+  · rw [fileParents_no_directive fs _ _ raw hraw, hev]
   · intro hdot
-    have hp : fileParents fs (d ++ [c]) raw = .ok [] := by
+    have hp : fileParents fs ⟨[], cwd⟩ (d ++ [c]) raw = .ok [] := by
       rw [hfp, splitOn_dot_plain l hdot]; rfl
     refine ⟨hp, ?_⟩
     intro hce fuel
     rw [lfp_leaf (List.contains_nil) (hload hce _) hp, mineOf_plain _ _ _ _ _ hraw]
     rfl
   · intro l₀ b hlb hb
-    have hp : fileParents fs (d ++ [c]) raw =
-        (match fs.findFile d l₀ with
+    have hp : fileParents fs ⟨[], cwd⟩ (d ++ [c]) raw =
+        (match fs.findRooted [] d l₀ with
           | some f => .ok [f]
           | none => .error .missingFile) := by
       rw [hfp, hlb, if_neg (parent_layer_snoc l₀ b hb).1, (parent_layer_snoc l₀ b hb).2]
@@ -1184,20 +1241,20 @@ example :
     splitPath "a.yaml" = ["a" ++ "." ++ "yaml"] ∧
     symFS.lstat (["w"] ++ ["a" ++ "." ++ "yaml"]) = some (.file (.ok [.map [("x", .int 1)]])) ∧
     '.' ∉ "a".toList ∧ supportedExts.contains (extOf "p.q.yaml") = true ∧
-    fromName symFS (["w"] ++ ["p.q.yaml"]) = .error .missingFile ∧
+    fromName symFS ⟨[], []⟩ (["w"] ++ ["p.q.yaml"]) = .error .missingFile ∧
     loadFileAndParents symFS ⟨[], []⟩ loadFuel (["w"] ++ ["p.q.yaml"]) none [] [] =
       .ok ([{ id := "/w/p.q.yaml", path := ["w", "p.q.yaml"],
               docs := [{ id := "/w/p.q.yaml|doc0", parents := [], data := .map [("x", .int 1)] }] }],
         ["/w/p.q.yaml|doc0"]) := by
   have hsp : splitPath "a.yaml" = ["a" ++ "." ++ "yaml"] := splitPath_lit _ _ (by decide)
   have hext : supportedExts.contains (extOf "p.q.yaml") = true := by rw [extOf_eq]; decide
-  have hown : fromName symFS (["w"] ++ ["p.q.yaml"]) = .error .missingFile := by
+  have hown : fromName symFS ⟨[], []⟩ (["w"] ++ ["p.q.yaml"]) = .error .missingFile := by
     have e : (["w"] ++ ["p.q.yaml"] : Comps) = ["w"] ++ ["p.q" ++ "." ++ "yaml"] := by decide
-    rw [e, fromName_snoc symFS ["w"] "p.q" "yaml" (by decide)]
+    rw [e, fromName_snoc symFS ⟨[], []⟩ ["w"] "p.q" "yaml" (by decide)]
     have h1 : "p.q".splitOn "." = ["p", "q"] := by rw [splitOn_dot]; decide
     rw [h1, if_neg (by decide)]
     have h2 : ".".intercalate (["p", "q"] : List String).dropLast = "p" := by decide
-    rw [h2, findFile_none_of_missing symFS_plain (by decide) (by
+    rw [h2, findRooted_none_of_missing symFS_plain (by decide) (by
       intro e he
       simp only [supportedExts, List.mem_cons, List.not_mem_nil, or_false] at he
       rcases he with rfl | rfl | rfl | rfl | rfl | rfl <;> decide)]
@@ -1216,8 +1273,8 @@ example :
 example :
     symFS.lstat (["w"] ++ ["x.y.z.yaml"]) = some (.link "a.b.json") ∧
     splitPath "a.b.json" = ["a.b" ++ "." ++ "json"] ∧ "a.b" = "a" ++ "." ++ "b" ∧
-    symFS.findFile ["w"] "a" = some (["w"] ++ ["a" ++ "." ++ "yaml"]) ∧
-    fileParents symFS (["w"] ++ ["x.y.z.yaml"]) [.map [("y", .int 2)]] = .ok [["w", "a.yaml"]] ∧
+    symFS.findRooted [] ["w"] "a" = some (["w"] ++ ["a" ++ "." ++ "yaml"]) ∧
+    fileParents symFS ⟨[], []⟩ (["w"] ++ ["x.y.z.yaml"]) [.map [("y", .int 2)]] = .ok [["w", "a.yaml"]] ∧
     loadFileAndParents symFS ⟨[], []⟩ loadFuel (["w"] ++ ["x.y.z.yaml"]) none [] [] =
       .ok ([{ id := "/w/x.y.z.yaml|/w/a.yaml", path := ["w", "a.yaml"],
               docs := [{ id := "/w/x.y.z.yaml|/w/a.yaml|doc0", parents := [],
@@ -1228,8 +1285,8 @@ example :
         ["/w/x.y.z.yaml|doc0"]) := by
   have hsp : splitPath "a.b.json" = ["a.b" ++ "." ++ "json"] := splitPath_lit _ _ (by decide)
   have hext : supportedExts.contains (extOf "x.y.z.yaml") = true := by rw [extOf_eq]; decide
-  have hfind : symFS.findFile ["w"] "a" = some (["w"] ++ ["a" ++ "." ++ "yaml"]) :=
-    findFile_layerFile symFS_plain (by decide) symFS_a
+  have hfind : symFS.findRooted [] ["w"] "a" = some (["w"] ++ ["a" ++ "." ++ "yaml"]) :=
+    findRooted_layerFile symFS_plain (by decide) symFS_a
   have h := (C03_symlink_uses_target_name symFS ["w"] [] "x.y.z.yaml" "a.b.json" "a.b" "json"
     [.map [("y", .int 2)]] symFS_plain (by simp [linkFuel]) (by decide) (by decide)
     (by simp [isAbsPath]) hsp (by decide) (by decide) (by decide)
